@@ -30,8 +30,8 @@ func runC09(c *core.Ctx) {
 	rulePasswordPrep(c)
 	ruleStringDecryption(c)
 	ruleStringEncryptionUnconditional(c, "C09-R8")
-	ruleNoArgMutation(c, "C09-R9")    // encrypting a string must not corrupt the value for its next use
-	ruleInStreamGuards(c, "C09-R10")  // strings are encrypted under the key of the object they belong to
+	ruleNoArgMutation(c, "C09-R9")   // encrypting a string must not corrupt the value for its next use
+	ruleInStreamGuards(c, "C09-R10") // strings are encrypted under the key of the object they belong to
 	ruleUserKeyComparison(c, "C09-R12")
 	ruleWriterSideDefaults(c, "C09-R13")
 	ruleCryptoConstants(c, "C09-R11") // the standard's algorithms: a conforming file's correct password must be accepted
